@@ -459,7 +459,25 @@ theorem exec_noof (M : Machine) (F : FnTable) (obj : HostVal) : ∀ f, NoOofAt M
       cases ss with
       | nil => simp [execSs] at h
       | cons s rest =>
-        simp only [execSs] at h
+        by_cases hpair : IsPair s rest
+        · obtain ⟨x, n, op, rest', rfl, rfl⟩ := hpair
+          simp only [execSs] at h
+          cases hv : evalE M obj env x out with
+          | mk res o1 =>
+            cases res with
+            | error y => simp only [hv] at h; exact failE_noof h
+            | ok y =>
+              simp only [hv] at h
+              cases hid : incDecEnv obj env n (op == ['+', '+']) with
+              | ok env2 => simp only [hid] at h; exact ih.Ss _ _ _ _ _ _ _ h
+              | error z =>
+                simp only [hid, Outcome.failed.injEq] at h
+                rw [← h.1]
+                unfold incDecEnv at hid
+                cases hl : lookup obj env n with
+                | error w => simp only [hl, Except.error.injEq] at hid; rw [← hid]; exact lookup_noof hl
+                | ok v => cases v <;> simp [hl] at hid <;> (rw [← hid]; simp [NotOof])
+        rw [execSs_other M F obj depth f s rest env out hpair] at h
         cases hb : execS M F obj depth f s env out with
         | normal e2 o2 => simp only [hb] at h; exact ih.Ss _ _ _ _ _ _ _ h
         | returned a b d => simp [hb] at h
